@@ -9,8 +9,8 @@ From BLB Require Import Lib.GF256.
 Import ListNotations.
 Open Scope N_scope.
 
-Definition vec := list N.
-Definition matrix := list vec.
+Notation vec := (list N) (only parsing).
+Notation matrix := (list (list N)) (only parsing).
 
 (* out[i] ^= in[i]; the longer operand survives (all uses are on equal lengths; [] is the neutral element) *)
 Fixpoint vadd (x y : vec) : vec :=
